@@ -617,6 +617,17 @@ func ruleFrameStepOrder(p *Prog, r *Out) {
 	pos := map[string]token.Pos{}
 	for _, s := range clause.Body {
 		t := p.text(s)
+		// the table lookup, with or without the `id <= lastID` shortcut in front of it
+		isLookup := false
+		inspectCalls(s, func(c *ast.CallExpr) {
+			if p.calleeOf(c) == "(*Streams).Search" {
+				isLookup = true
+			}
+		})
+		if _, seen := pos["lookup"]; isLookup && !seen {
+			pos["lookup"] = s.Pos()
+			continue
+		}
 		switch x := s.(type) {
 		case *ast.AssignStmt:
 			if strings.HasPrefix(t, "wasClosing := isClosing()") {
@@ -626,8 +637,6 @@ func ruleFrameStepOrder(p *Prog, r *Out) {
 		case *ast.IfStmt:
 			ct := p.text(x.Cond)
 			switch {
-			case ct == "fr.Stream() <= sc.lastID":
-				pos["lookup"] = s.Pos()
 			case ct == "strm == nil":
 				pos["classify"] = s.Pos()
 			case ct == "fr.Type() == FrameHeaders":
